@@ -190,7 +190,7 @@ pub fn gen_c17(out: &mut Out, rng: &mut Rng, thorough: bool) {
                 let (op, pdu) = typed_and_reply(rng);
                 let reply = match behaviour {
                     0 | 4 if behaviour == 0 => frame(kind, tid, unit, &pdu),
-                    1 => frame(kind, tid, unit, &[pdu[0] | 0x80, rng.u8()]),
+                    1 => frame(kind, tid, unit, &[pdu[0] | 0x80, rng.exc_code()]),
                     2 => frame(kind, tid.wrapping_add(1), unit ^ 0x10, &pdu),
                     3 => frame(kind, tid, unit, &[0x07, 0x55]),
                     _ => vec![],
@@ -210,7 +210,7 @@ pub fn gen_c17(out: &mut Out, rng: &mut Rng, thorough: bool) {
                 let pdu = spec::response_bytes(&rsp).unwrap_or(vec![0x07, 0]);
                 let reply = match behaviour {
                     0 => frame(kind, tid, unit, &pdu),
-                    1 => frame(kind, tid, unit, &[pdu[0] | 0x80, rng.u8()]),
+                    1 => frame(kind, tid, unit, &[pdu[0] | 0x80, rng.exc_code()]),
                     2 => frame(kind, tid.wrapping_add(1), unit ^ 0x10, &pdu),
                     3 => frame(kind, tid, unit, &[0x07, 0x55]),
                     _ => vec![],
